@@ -8,6 +8,9 @@
   the fraction `num v / den v` in R[ω]/(ω²+ω+1); each law says the code computes the fraction-arithmetic result.
 -/
 import Ipv8.C18.Lemmas
+import Ipv8.C18.LemmasProto
+import Ipv8.C18.LemmasSer
+import Mathlib.Data.ZMod.Basic
 
 namespace Ipv8.C18
 open Ipv8 FP2
@@ -56,5 +59,316 @@ theorem intpow_den (v : FP2 R) (n : Nat) : (intpowNat v n).den = v.den ^ n := by
 /-- non-vacuity: the laws are used at a concrete value with general denominators -/
 example : (add (⟨3, 4, 0, 5, 6, 0⟩ : FP2 Int) ⟨7, 8, 0, 9, 10, 0⟩).den
     = (⟨5, 6, 0, 5, 6, 0⟩ : FP2 Int).num * (⟨9, 10, 0, 9, 10, 0⟩ : FP2 Int).num := by decide
+
+
+/-! ## What CPython computes (unbounded integers reduced modulo p) is this ring arithmetic
+
+  `castV` maps the integer coefficients into any commutative ring `S` in which `p = 0` (in particular `ZMod p`).
+  The integer-level functions of Model.lean (`addP`, … — compared with the real methods by the correspondence run)
+  commute with the cast, so the fraction laws above hold for what the code returns. -/
+
+section cast_laws
+variable {S : Type} [CommRing S]
+
+theorem addP_law (p : Int) (hp : ((p : Int) : S) = 0) (s o : FP2 Int) :
+    (castV (addP p s o) : FP2 S).num = (castV s : FP2 S).num * (castV o : FP2 S).den + (castV o : FP2 S).num * (castV s : FP2 S).den
+    ∧ (castV (addP p s o) : FP2 S).den = (castV s : FP2 S).den * (castV o : FP2 S).den := by
+  rw [castV_addP p hp]; exact ⟨add_num _ _, add_den _ _⟩
+
+theorem subP_law (p : Int) (hp : ((p : Int) : S) = 0) (s o : FP2 Int) :
+    (castV (subP p s o) : FP2 S).num = (castV s : FP2 S).num * (castV o : FP2 S).den - (castV o : FP2 S).num * (castV s : FP2 S).den
+    ∧ (castV (subP p s o) : FP2 S).den = (castV s : FP2 S).den * (castV o : FP2 S).den := by
+  rw [castV_subP p hp]; exact ⟨sub_num _ _, sub_den _ _⟩
+
+theorem mulP_law (p : Int) (hp : ((p : Int) : S) = 0) (s o : FP2 Int) :
+    (castV (mulP p s o) : FP2 S).num = (castV s : FP2 S).num * (castV o : FP2 S).num
+    ∧ (castV (mulP p s o) : FP2 S).den = (castV s : FP2 S).den * (castV o : FP2 S).den := by
+  rw [castV_mulP p hp]; exact ⟨mul_num _ _, mul_den _ _⟩
+
+theorem divP_law (p : Int) (hp : ((p : Int) : S) = 0) (s o : FP2 Int) :
+    (castV (divP p s o) : FP2 S).num = (castV s : FP2 S).num * (castV o : FP2 S).den
+    ∧ (castV (divP p s o) : FP2 S).den = (castV s : FP2 S).den * (castV o : FP2 S).num := by
+  rw [castV_divP p hp]; exact ⟨div_num _ _, div_den _ _⟩
+
+theorem invP_law (p : Int) (hp : ((p : Int) : S) = 0) (s : FP2 Int) :
+    (castV (invP p s) : FP2 S).num = (castV s : FP2 S).den ∧ (castV (invP p s) : FP2 S).den = (castV s : FP2 S).num := by
+  rw [castV_invP p hp]; exact ⟨inv_num _, inv_den _⟩
+
+/-- `intpow` with a non-negative exponent, as computed on integers mod p: the n-th power of the fraction -/
+theorem intpowP_law (p : Int) (hp : ((p : Int) : S) = 0) (v : FP2 Int) (n : Nat) :
+    (castV (intpowP p v n) : FP2 S).num = (castV v : FP2 S).num ^ n
+    ∧ (castV (intpowP p v n) : FP2 S).den = (castV v : FP2 S).den ^ n := by
+  have h : intpowP p v (n : Int) = intpowLoopP p (modP p FP2.one) v n := by
+    simp [intpowP]
+  have h1 : (castV (modP p FP2.one) : FP2 S) = FP2.one := by
+    rw [castV_modP p hp]; simp [castV, FP2.one]
+  rw [h, castV_intpowLoopP p hp, h1]
+  exact ⟨intpow_num _ n, intpow_den _ n⟩
+
+end cast_laws
+
+/-- `_modinv` (extended Euclid): `_modinv(e, m)·e ≡ gcd(e, m) (mod m)` for all e ≥ 0, m > 0 — the inverse when coprime -/
+theorem modinv_correct (e m : Int) (he : 0 ≤ e) (hm : 0 < m) (hg : Int.gcd e m = 1) :
+    (modinv e m * e) % m = 1 % m := by
+  have := modinv_mul e m he hm
+  rw [hg] at this
+  exact_mod_cast this
+
+/-- `normalize` is value preserving for every prime modulus and every operand -/
+theorem normalize_value_preserving (p : Nat) (hp : p.Prime) (v : FP2 Int) :
+    (castV (normalizeP p v) : FP2 (ZMod p)).num * (castV v : FP2 (ZMod p)).den
+      = (castV v : FP2 (ZMod p)).num * (castV (normalizeP p v) : FP2 (ZMod p)).den :=
+  normalizeP_cross p hp v
+
+/-- `__eq__` is equality of fractions in F_p[ω]/(ω²+ω+1), for every prime modulus and all operands -/
+theorem eq_is_fraction_equality (p : Nat) (hp : p.Prime) (s o : FP2 Int) :
+    eqP p s o = true ↔
+      (castV s : FP2 (ZMod p)).num * (castV o : FP2 (ZMod p)).den
+        = (castV s : FP2 (ZMod p)).den * (castV o : FP2 (ZMod p)).num :=
+  eqP_iff' p hp s o
+
+example : eqP 23 ⟨3, 4, 0, 5, 6, 0⟩ ⟨6, 8, 0, 10, 12, 0⟩ = true :=
+  (eq_is_fraction_equality 23 (by decide) _ _).2 (by decide)
+
+/-! ## Serialisation (primitives/structs.py) -/
+
+/-- `iunpack(ipack(n) + rest) = (n, rest)` for every packable n (every n < 256^255) and every trailing data -/
+theorem iunpack_ipack (n : Nat) (rest : ByteStr) (h : Packable n) : iunpack (ipack n ++ rest) = some (n, rest) :=
+  iunpack_ipack' n rest h
+
+theorem packable_below_2040_bits (n : Nat) (h : n < 256 ^ 255) : Packable n := packable_of_lt n h
+
+/-- any sequence of integers (pairs, keys, bit pairs) survives pack/unpack, with trailing data untouched -/
+theorem unpackMany_packMany (ns : List Nat) (rest : ByteStr) (h : ∀ n ∈ ns, Packable n) :
+    unpackMany ns.length (packMany ns ++ rest) = (ns, rest) :=
+  unpackMany_packMany' ns rest h
+
+/-- public keys survive serialisation (coordinates are reduced modulo p, as the code keeps them) -/
+theorem public_key_roundtrip (k : KeyInts) (rest : ByteStr)
+    (hp : Packable k.p) (h1 : Packable k.ga) (h2 : Packable k.gb) (h3 : Packable k.ha) (h4 : Packable k.hb)
+    (l1 : k.ga < k.p) (l2 : k.gb < k.p) (l3 : k.ha < k.p) (l4 : k.hb < k.p) :
+    KeyInts.unserialize (k.serialize ++ rest) = some (k, rest) :=
+  key_roundtrip' k rest hp h1 h2 h3 h4 l1 l2 l3 l4
+
+theorem private_key_roundtrip (k : KeyInts) (n t1 : Nat)
+    (hp : Packable k.p) (h1 : Packable k.ga) (h2 : Packable k.gb) (h3 : Packable k.ha) (h4 : Packable k.hb)
+    (h5 : Packable n) (h6 : Packable t1)
+    (l1 : k.ga < k.p) (l2 : k.gb < k.p) (l3 : k.ha < k.p) (l4 : k.hb < k.p) :
+    privUnserialize (privSerialize k n t1) = some (k, n, t1) :=
+  priv_roundtrip' k n t1 hp h1 h2 h3 h4 h5 h6 l1 l2 l3 l4
+
+example : iunpack (ipack 70000 ++ [1, 2]) = some (70000, [1, 2]) :=
+  iunpack_ipack _ _ (packable_below_2040_bits _ (by norm_num))
+
+/-! ## Protocol part
+
+  `A` is an arbitrary commutative group in additive notation with decidable equality (`n • x` is the code's
+  `x.intpow(n)`, `+` its `*`); `GroupOps.ofAdd A` turns it into the record of operations the executable model is
+  written against (the driver runs the same functions at the FP2Value operations).  A key must satisfy `BonehHyp`
+  (orders of g, h; checked on every fresh key by the harness).  Randomness is universally quantified: blinding
+  factors are arbitrary elements with `t1 • x = 0`, tapes and shuffles are arbitrary lists. -/
+
+section protocol
+variable {A : Type} [AddCommGroup A] [DecidableEq A]
+
+local notation "𝔾" => GroupOps.ofAdd A
+
+/-- `decode` returns the encrypted message whenever it is in the message space and the space is separated by g^t1 -/
+theorem decode_encode (sk : PrivKey A) (space : List Nat) (m : Nat) (x : A)
+    (hx : sk.t1 • x = 0) (hm : m ∈ space)
+    (hinj : ∀ m' ∈ space, m' • (sk.t1 • sk.g) = m • (sk.t1 • sk.g) → m' = m) :
+    decode (𝔾) sk space (encWith (𝔾) sk.g m x) = some m :=
+  decode_correct sk space m x hx hm hinj
+
+/-- `encode` on any tape yields g^m times a blinding factor of the subgroup of h -/
+theorem encode_blinded (sk : PrivKey A) (H : BonehHyp sk) (m : Nat) (tape rest : List Nat) (c : A)
+    (h : encode (𝔾) sk.toPubKey m tape = some (c, rest)) : ∃ x, sk.t1 • x = 0 ∧ c = m • sk.g + x := by
+  unfold encode at h
+  split at h
+  · simp at h
+  · rename_i x r hr
+    simp only [Option.some.injEq, Prod.mk.injEq] at h
+    exact ⟨x, randExp_blinding sk.h sk.t1 H.h_order _ _ _ hr, by rw [← h.1]; simp⟩
+
+/-- response_is_pair_sum: the answer to the challenge on an honest bit pair (bits a0, a1; any blinding exponents
+    and factors) is a0 + a1 -/
+theorem response_is_pair_sum (sk : PrivKey A) (H : BonehHyp sk) (a0 a1 r0 r1 : Nat) (x0 x1 y z : A)
+    (ha0 : a0 ≤ 1) (ha1 : a1 ≤ 1)
+    (hx0 : sk.t1 • x0 = 0) (hx1 : sk.t1 • x1 = 0) (hy : sk.t1 • y = 0) (hz : sk.t1 • z = 0) :
+    respond (𝔾) sk (challengeWith (𝔾) sk.toPubKey
+      { a := encWith (𝔾) sk.g (a0 + r0) x0, b := encWith (𝔾) sk.g (a1 + r1) x1,
+        complement := encWith (𝔾) sk.g (complExp sk.p r0 r1) y } z) = a0 + a1 :=
+  response_pair sk H a0 a1 r0 r1 x0 x1 y z ha0 ha1 hx0 hx1 hy hz
+
+/-- a challenge that decodes to none of 0, 1, 2 is answered 3 -/
+theorem undecodable_is_three (sk : PrivKey A) (c : A)
+    (h : ∀ m' ∈ [0, 1, 2], sk.t1 • c ≠ m' • (sk.t1 • sk.g)) : respond (𝔾) sk c = 3 :=
+  respond_three sk c h
+
+/-- profile_reconstructed: for the attestation `attest` produces from ANY randomness (draws, shuffles, tape), and for
+    ANY list `order` of challenge positions (any subset, any order, repetitions allowed) and any verifier blinding
+    `zf`, the answers are exactly the pair sums of the value's bits at those (shuffled) positions. -/
+theorem profile_reconstructed (sk : PrivKey A) (H : BonehHyp sk) (value bitspace : Nat)
+    (draws permR perm2 tape rest : List Nat) (bps : List (BitPair A))
+    (hR : (bitsOf value bitspace).length ≤ (genModAddInv sk.p draws permR).length)
+    (hatt : attest (𝔾) sk.toPubKey value bitspace draws permR perm2 tape = some (bps, rest))
+    (zf : BitPair A → A) (hz : ∀ bp, sk.t1 • zf bp = 0) (order : List Nat) :
+    (applyPerm order bps).map (fun bp => respond (𝔾) sk (challengeWith (𝔾) sk.toPubKey bp (zf bp)))
+      = applyPerm order (applyPerm perm2 (pairSums (bitsOf value bitspace))) := by
+  unfold attest at hatt
+  simp only at hatt
+  split at hatt
+  · simp at hatt
+  · rename_i xs tape1 hxs
+    split at hatt
+    · simp at hatt
+    · rename_i ys tape2 hys
+      simp only [Option.some.injEq, Prod.mk.injEq] at hatt
+      obtain ⟨rfl, _⟩ := hatt
+      have bx := drawMany_blinding sk.h sk.t1 H.h_order _ _ _ _ hxs
+      have by' := drawMany_blinding sk.h sk.t1 H.h_order _ _ _ _ hys
+      rw [← applyPerm_map, ← applyPerm_map]
+      rw [mkPairs_responses sk H zf hz _ _ _ _ (bitsOf_le_one value bitspace) bx.1 by'.1 hR
+        (by rw [bx.2]) (by rw [by'.2])]
+
+/-- the aggregate only depends on how often each answer occurred: it is the histogram … -/
+theorem aggregate_is_histogram (l : List Nat) :
+    aggregate l = ⟨l.count 0, l.count 1, l.count 2, l.count 3⟩ := aggregate_counts l
+
+/-- … hence independent of the order in which challenges are answered -/
+theorem aggregate_order_independent {l₁ l₂ : List Nat} (h : l₁.Perm l₂) : aggregate l₁ = aggregate l₂ :=
+  aggregate_perm h
+
+/-- full round: if every position is challenged exactly once (`order` and the attestation's shuffle are permutations),
+    the verifier's aggregate is the relativity map of the attested value -/
+theorem full_round_aggregate (sk : PrivKey A) (H : BonehHyp sk) (value bitspace : Nat)
+    (draws permR perm2 tape rest : List Nat) (bps : List (BitPair A))
+    (hlen : (bitsOf value bitspace).length = bitspace)
+    (hR : (bitsOf value bitspace).length ≤ (genModAddInv sk.p draws permR).length)
+    (hatt : attest (𝔾) sk.toPubKey value bitspace draws permR perm2 tape = some (bps, rest))
+    (zf : BitPair A → A) (hz : ∀ bp, sk.t1 • zf bp = 0) (order : List Nat)
+    (hperm2 : perm2.Perm (List.range (pairSums (bitsOf value bitspace)).length))
+    (horder : order.Perm (List.range (applyPerm perm2 (pairSums (bitsOf value bitspace))).length)) :
+    aggregate ((applyPerm order bps).map (fun bp => respond (𝔾) sk (challengeWith (𝔾) sk.toPubKey bp (zf bp))))
+      = binaryRelativity value bitspace := by
+  rw [profile_reconstructed sk H value bitspace draws permR perm2 tape rest bps hR hatt zf hz order]
+  unfold binaryRelativity
+  rw [List.take_of_length_le (by omega)]
+  exact aggregate_perm ((applyPerm_perm order _ horder).trans (applyPerm_perm perm2 _ hperm2))
+
+end protocol
+
+/-- true_value_scores: against its own relativity map (full round) the score is 1 − 2⁻ⁿ, n = number of answers -/
+theorem true_value_scores (e : Rel) : certaintyQ e e = 1 - 1 / (2 : Rat) ^ e.total := certainty_self e
+
+/-- other_profile_scores_zero: after a complete round (same number of pairs) every other profile scores 0 -/
+theorem other_profile_scores_zero (e v : Rel) (hne : e ≠ v) (htot : e.total = v.total) : certaintyQ e v = 0 := by
+  simp [certaintyQ, matchQ_other e v hne htot]
+
+/-- partial rounds: while the observed histogram stays below the true profile the true value's score is positive
+    and at most 1 − 2⁻ⁿ; as soon as it exceeds a profile in one class that profile scores 0 -/
+theorem partial_round_score (e v : Rel) (h0 : v.c0 ≤ e.c0) (h1 : v.c1 ≤ e.c1) (h2 : v.c2 ≤ e.c2) (h3 : v.c3 ≤ e.c3)
+    (hn : 0 < v.total) : 0 < certaintyQ e v ∧ certaintyQ e v ≤ 1 - 1 / (2 : Rat) ^ v.total := by
+  have hm : matchQ e v = matchFactor e.c0 v.c0 * matchFactor e.c1 v.c1 * matchFactor e.c2 v.c2 * matchFactor e.c3 v.c3 := by
+    unfold matchQ
+    rw [if_neg (by omega)]
+  have p0 := matchFactor_pos e.c0 v.c0
+  have p1 := matchFactor_pos e.c1 v.c1
+  have p2 := matchFactor_pos e.c2 v.c2
+  have p3 := matchFactor_pos e.c3 v.c3
+  have l0 := matchFactor_le_one e.c0 v.c0 h0
+  have l1 := matchFactor_le_one e.c1 v.c1 h1
+  have l2 := matchFactor_le_one e.c2 v.c2 h2
+  have l3 := matchFactor_le_one e.c3 v.c3 h3
+  have hpos : 0 < matchQ e v := by rw [hm]; positivity
+  have hle : matchQ e v ≤ 1 := by
+    rw [hm]
+    have a1 : matchFactor e.c0 v.c0 * matchFactor e.c1 v.c1 ≤ 1 := mul_le_one₀ l0 p1.le l1
+    have a2 : matchFactor e.c0 v.c0 * matchFactor e.c1 v.c1 * matchFactor e.c2 v.c2 ≤ 1 :=
+      mul_le_one₀ a1 p2.le l2
+    exact mul_le_one₀ a2 p3.le l3
+  have hh : (0 : Rat) < 1 - 1 / (2 : Rat) ^ v.total := by
+    have : (1 : Rat) < (2 : Rat) ^ v.total := one_lt_pow₀ (by norm_num) (by omega)
+    have h2 : (0 : Rat) < (2 : Rat) ^ v.total := by positivity
+    rw [sub_pos, div_lt_one h2]
+    exact this
+  unfold certaintyQ
+  rw [halfPow_eq]
+  exact ⟨mul_pos hpos hh, by nlinarith⟩
+
+theorem exceeded_profile_scores_zero (e v : Rel) (h : e.c0 < v.c0 ∨ e.c1 < v.c1 ∨ e.c2 < v.c2 ∨ e.c3 < v.c3) :
+    certaintyQ e v = 0 := by
+  simp [certaintyQ, matchQ, h]
+
+/-! ### range proof (Peng–Bao with Boudot's EL / SQR), as identities in an arbitrary commutative group with an
+    arbitrary Fiat–Shamir hash -/
+
+section range
+variable {A : Type} [AddCommGroup A] [DecidableEq A]
+
+local notation "𝔾" => GroupOps.ofAdd A
+
+/-- EL: a proof created for commitments y1 = g1^x h1^r1, y2 = g2^x h2^r2 passes its check (any randomness, any hash) -/
+theorem el_complete (hash : A → A → Int) (x r1 r2 : Int) (g1 h1 g2 h2 : A) (rnd : ELRand) :
+    elCheck (𝔾) hash (elCreate (𝔾) hash x r1 r2 g1 h1 g2 h2 rnd) g1 h1 g2 h2
+      (x • g1 + r1 • h1) (x • g2 + r2 • h2) = true :=
+  el_complete' hash x r1 r2 g1 h1 g2 h2 _ _ rnd rfl rfl
+
+/-- SQR: a proof created for x, r1 passes the check against y = g^(x²) h^r1 -/
+theorem sqr_complete (hash : A → A → Int) (x r1 : Int) (g h : A) (r2 : Int) (rnd : ELRand) :
+    sqrCheck (𝔾) hash (sqrCreate (𝔾) hash x r1 g h r2 rnd) g h ((x * x) • g + r1 • h) = true :=
+  sqr_complete' hash x r1 g h _ r2 rnd rfl
+
+/-- range_complete: for a value inside [a, b] the honest construction (any randomness with w ≥ 3 and a split
+    m1, m2 ≥ 0 of mst) produces an attestation whose answers to every challenge s, t ≥ 1 pass the check -/
+theorem range_complete (hash : A → A → Int) (g h : A) (value a b : Int) (rnd : RangeRand) (s t : Int)
+    (h1 : a ≤ value) (h2 : value ≤ b) (hw : 3 ≤ rnd.w)
+    (hm1 : 0 ≤ rnd.m1) (hm2 : 0 ≤ mstOf rnd.w value a b - rnd.m1 - rnd.m4 * rnd.m4) (hs : 1 ≤ s) (ht : 1 ≤ t) :
+    rangeRound (𝔾) hash g h value a b rnd s t = some true :=
+  range_complete' hash g h value a b rnd s t h1 h2 hw hm1 hm2 hs ht
+
+/-- outside_rejected: for a value outside the range the honest construction yields no attestation at all
+    (the code raises or does not terminate), whatever the randomness -/
+theorem outside_rejected (hash : A → A → Int) (g h : A) (value a b : Int) (rnd : RangeRand) (s t : Int)
+    (hab : a ≤ b) (hout : value < a ∨ b < value) :
+    createAttestPair (𝔾) hash g h value a b rnd = none ∧ rangeRound (𝔾) hash g h value a b rnd s t = none := by
+  have := create_outside_none hash g h value a b rnd hab hout
+  exact ⟨this, by unfold rangeRound; rw [this]⟩
+
+/-- … and a prover who follows the same algebra with ANY split m1 + m2 + m3 = mst ≤ 0 (m3 a square) is rejected by
+    the positivity test for every challenge s, t ≥ 1, whatever public data it presents -/
+theorem outside_any_split_rejected (hash : A → A → Int) (g h : A) (pd : RangePublic A) (pv : RangePriv)
+    (w value a b s t : Int) (hab : a ≤ b) (hout : value < a ∨ b < value)
+    (hsum : pv.m1 + pv.m2 + pv.m3 = mstOf w value a b) (h3 : 0 ≤ pv.m3) (hs : 1 ≤ s) (ht : 1 ≤ t) :
+    rangeCheck (𝔾) hash g h pd a b s t (pv.response s t).1 (pv.response s t).2.1 (pv.response s t).2.2.1
+      (pv.response s t).2.2.2 = false := by
+  apply rangeCheck_nonpos
+  exact answers_nonpos pv.m1 pv.m2 pv.m3 _ s t hsum (mst_nonpos_outside w value a b hab hout) h3 hs ht
+
+end range
+
+/-! ### non-vacuity: a toy key over ℤ/15 (n = 15 = 3·5, t1 = 3, p = 29 ≡ 2 mod 3, g = 1, h = 5) satisfies the
+    hypotheses, and the concrete model functions run on it -/
+
+def toyKey : PrivKey (ZMod 15) := { p := 29, g := 1, h := 5, n := 15, t1 := 3 }
+
+example : BonehHyp toyKey := by
+  refine ⟨?_, ?_, ?_, ?_⟩ <;> simp [toyKey] <;> decide
+
+example : respond (GroupOps.ofAdd (ZMod 15)) toyKey
+    (challengeWith (GroupOps.ofAdd (ZMod 15)) toyKey.toPubKey
+      { a := encWith (GroupOps.ofAdd (ZMod 15)) toyKey.g (1 + 7) 5,
+        b := encWith (GroupOps.ofAdd (ZMod 15)) toyKey.g (1 + 20) 10,
+        complement := encWith (GroupOps.ofAdd (ZMod 15)) toyKey.g (complExp toyKey.p 7 20) 5 } 10) = 1 + 1 :=
+  response_is_pair_sum toyKey (by refine ⟨?_, ?_, ?_, ?_⟩ <;> simp [toyKey] <;> decide) 1 1 7 20 5 10 5 10
+    (by decide) (by decide) (by decide) (by decide) (by decide) (by decide)
+
+example : certaintyQ ⟨4, 7, 5, 0⟩ ⟨4, 7, 5, 0⟩ = 1 - 1 / (2 : Rat) ^ 16 := true_value_scores _
+example : certaintyQ ⟨5, 6, 5, 0⟩ ⟨4, 7, 5, 0⟩ = 0 := other_profile_scores_zero _ _ (by decide) (by decide)
+
+/-- the range theorems' hypotheses are satisfiable: value 20 in [18, 30], w = 5 -/
+example : rangeRound (GroupOps.ofAdd (ZMod 15)) (fun _ _ => 7) 1 5 20 18 30
+    ⟨2, 3, 4, 5, 6, 100, 11, 12, ⟨1, 2, 3⟩, 4, ⟨5, 6, 7⟩, 8, ⟨9, 10, 11⟩⟩ 40000 50000 = some true :=
+  range_complete _ _ _ _ _ _ _ _ _ (by decide) (by decide) (by decide) (by decide) (by decide) (by decide) (by decide)
 
 end Ipv8.C18
